@@ -1156,3 +1156,112 @@ Section KyFan.
       + apply Hnest; lia.
   Qed.
 End KyFan.
+
+(* ======================================================================= Part F: copies of configurations *)
+(* Gen/Trunc.v part 3: config_copy_dict, mp_metacopy_config, ttns_metacopy_config (translated from
+   CompressConfig.copy, MatrixProduct.metacopy, TTNS.metacopy), compress_ensure_max_dims. *)
+Local Notation hget := (h_get cfg_dflt).
+
+Lemma hget_set_same : forall (h : heap criteria) r f, (r < length h)%nat -> hget (h_set h r f) r = f.
+Proof. intros. unfold h_get, h_set. apply set_nth_same. assumption. Qed.
+
+Lemma hget_set_other : forall (h : heap criteria) r r' f, r' <> r -> hget (h_set h r' f) r = hget h r.
+Proof. intros. unfold h_get, h_set. apply set_nth_other. assumption. Qed.
+
+Lemma hset_length : forall (h : heap criteria) r f, length (h_set h r f) = length h.
+Proof. intros. unfold h_set. apply set_nth_length. Qed.
+
+(* THE obligation about copies: the configuration of a copy lives in a FRESH attribute namespace that starts
+   as a snapshot of the source's; nothing of the old heap moves *)
+Definition fresh_copy (cp : heap criteria -> nat -> heap criteria * nat) : Prop :=
+  forall h r, (r < length h)%nat ->
+    let '(h', r') := cp h r in
+    r' = length h /\ r' <> r /\ length h' = S (length h) /\ hget h' r' = hget h r /\
+    (forall q, (q < length h)%nat -> hget h' q = hget h q).
+
+Lemma fresh_copy_generic : fresh_copy (metacopy_config AttrCopyMethod DictFreshCopy cfg_dflt).
+Proof.
+  intros h r Hr. cbn [metacopy_config copy_config]. repeat split.
+  - lia.
+  - rewrite app_length. cbn [length]. lia.
+  - unfold h_get at 1. rewrite app_nth2 by lia. rewrite Nat.sub_diag. reflexivity.
+  - intros q Hq. unfold h_get. apply app_nth1. exact Hq.
+Qed.
+
+Lemma mp_copy_is_fresh : fresh_copy mp_copy_config.
+Proof. exact fresh_copy_generic. Qed.
+Lemma ttns_copy_is_fresh : fresh_copy ttns_copy_config.
+Proof. exact fresh_copy_generic. Qed.
+
+(* aliasing would be observable: with `new.__dict__ = self.__dict__` a store through the copy changes the source *)
+Lemma alias_refuted :
+  exists h r, (r < length h)%nat /\
+    let '(h', r') := metacopy_config AttrCopyMethod DictAlias cfg_dflt h r in
+    hget (store_M cfg_dflt h' r' 2) r <> hget h r.
+Proof.
+  exists [mk_cfields Fixed (1 # 2)%Q 6 None], 0%nat. split; [cbn; lia|]. cbn. intro H. discriminate H.
+Qed.
+
+(* WHEN max_dims is (re)computed: only by compress() through bonddim_should_set/set_bonddim, only while it is
+   None and the criterion has a limit; once filled it is never refreshed from bond_dim_max_value *)
+Lemma max_dims_is_a_cache : forall h r n md, f_max_dims (hget h r) = Some md -> compress_ensure_max_dims h r n = h.
+Proof.
+  intros h r n md H. unfold compress_ensure_max_dims, ensure_max_dims, bonddim_should_set. rewrite H.
+  cbn [is_none]. rewrite andb_false_r. reflexivity.
+Qed.
+
+Lemma max_dims_threshold_untouched : forall h r n, f_criteria (hget h r) = Threshold -> compress_ensure_max_dims h r n = h.
+Proof.
+  intros h r n H. unfold compress_ensure_max_dims, ensure_max_dims, bonddim_should_set. rewrite H. reflexivity.
+Qed.
+
+Lemma max_dims_filled : forall h r n, (r < length h)%nat -> f_criteria (hget h r) <> Threshold ->
+  f_max_dims (hget h r) = None ->
+  hget (compress_ensure_max_dims h r n) r
+  = mk_cfields (f_criteria (hget h r)) (f_threshold (hget h r)) (f_bond_dim_max_value (hget h r))
+               (Some (repeat (f_bond_dim_max_value (hget h r)) n))
+  /\ (forall q, q <> r -> hget (compress_ensure_max_dims h r n) q = hget h q).
+Proof.
+  intros h r n Hr Hc Hn. unfold compress_ensure_max_dims, ensure_max_dims, bonddim_should_set. rewrite Hn.
+  destruct (f_criteria (hget h r)) eqn:E; [congruence| |]; cbn [negb andb is_none set_bonddim];
+    (split; [apply hget_set_same; exact Hr|intros q Hq; apply hget_set_other; congruence]).
+Qed.
+
+(* the limits compress() then uses are the ones of the generated schedule (effective_max_dims) *)
+Lemma ensure_matches_effective : forall h r n, (r < length h)%nat -> f_criteria (hget h r) <> Threshold ->
+  f_max_dims (hget (compress_ensure_max_dims h r (Z.to_nat n)) r)
+  = Some (effective_max_dims (f_criteria (hget h r)) (f_max_dims (hget h r)) (f_bond_dim_max_value (hget h r)) n).
+Proof.
+  intros h r n Hr Hc. destruct (f_max_dims (hget h r)) as [md|] eqn:E.
+  - rewrite (max_dims_is_a_cache h r _ md E), E. unfold effective_max_dims, bonddim_should_set.
+    cbn [is_none]. rewrite andb_false_r. reflexivity.
+  - destruct (max_dims_filled h r (Z.to_nat n) Hr Hc E) as [-> _]. cbn [f_max_dims].
+    unfold effective_max_dims, bonddim_should_set. destruct (f_criteria (hget h r)); [congruence| |]; reflexivity.
+Qed.
+
+(* the idiom of the package's tests on a copy of a state that has not been compressed:
+     c = x.copy(); c.compress_config.bond_dim_max_value = M2; c.compress_config.criteria = crit; c.compress()
+   uses the NEW limit M2 on every bond, and the source's configuration is untouched *)
+Theorem fresh_copy_uses_new_limit_gen : forall cp, fresh_copy cp ->
+  forall h r M2 crit n, (r < length h)%nat -> crit <> Threshold -> f_max_dims (hget h r) = None ->
+    let '(h1, r') := cp h r in
+    let h4 := compress_ensure_max_dims (store_criteria cfg_dflt (store_M cfg_dflt h1 r' M2) r' crit) r' n in
+    f_max_dims (hget h4 r') = Some (repeat M2 n) /\ f_criteria (hget h4 r') = crit /\ hget h4 r = hget h r.
+Proof.
+  intros cp Hcp h r M2 crit n Hr Hc Hn. specialize (Hcp h r Hr). destruct (cp h r) as [h1 r'].
+  destruct Hcp as [Hr' [Hne [Hlen [Hsnap Hold]]]].
+  assert (r' < length h1)%nat as Hr1 by lia.
+  set (h2 := store_M cfg_dflt h1 r' M2). set (h3 := store_criteria cfg_dflt h2 r' crit).
+  assert (length h2 = length h1) as L2 by apply hset_length.
+  assert (hget h2 r' = mk_cfields (f_criteria (hget h r)) (f_threshold (hget h r)) M2 None) as G2.
+  { unfold h2, store_M. rewrite hget_set_same by exact Hr1. rewrite Hsnap, Hn. reflexivity. }
+  assert (hget h3 r' = mk_cfields crit (f_threshold (hget h r)) M2 None) as G3.
+  { unfold h3, store_criteria. rewrite hget_set_same by lia. rewrite G2. reflexivity. }
+  assert (hget h3 r = hget h r) as Gsrc.
+  { unfold h3, store_criteria. rewrite hget_set_other by exact Hne. unfold h2, store_M.
+    rewrite hget_set_other by exact Hne. apply Hold. exact Hr. }
+  assert (length h3 = length h1) as L3 by (unfold h3, store_criteria; rewrite hset_length; exact L2).
+  destruct (max_dims_filled h3 r' n ltac:(lia) ltac:(rewrite G3; exact Hc) ltac:(rewrite G3; reflexivity)) as [Hf Ho].
+  cbv zeta. rewrite Hf, G3. cbn [f_max_dims f_criteria f_bond_dim_max_value]. repeat split.
+  rewrite (Ho r ltac:(congruence)). exact Gsrc.
+Qed.
